@@ -18,6 +18,7 @@ type sockWorld struct {
 	sock Socket
 	log  []logEnt
 	preFlush func() // runs in the first 'flush' listener, before the event is recorded
+	preDrain func() // runs in the first 'drain' listener, before the event is recorded
 }
 
 type logEnt struct {
@@ -53,7 +54,12 @@ func newSockWorld(tn string, eio string) *sockWorld {
 		}
 		w.log = append(w.log, logEnt{kind: "flush", batch: a[0].([]*packet.Packet)})
 	})
-	w.sock.On("drain", func(a ...any) { w.log = append(w.log, logEnt{kind: "drain"}) })
+	w.sock.On("drain", func(a ...any) {
+		if w.preDrain != nil {
+			w.preDrain()
+		}
+		w.log = append(w.log, logEnt{kind: "drain"})
+	})
 	w.sock.On("close", func(a ...any) { w.log = append(w.log, logEnt{kind: "close"}) })
 	ps.On("flush", func(a ...any) { w.log = append(w.log, logEnt{kind: "sflush", batch: a[1].([]*packet.Packet)}) })
 	ps.On("drain", func(a ...any) { w.log = append(w.log, logEnt{kind: "sdrain"}) })
@@ -295,4 +301,35 @@ func VerifH_C18_stray_drain() {
 		}
 	}
 	verif.Assert(fl >= 0, "the buffered packets were handed over")
+}
+
+// VerifH_C18_flush_drain_pairing: while the 'drain' listeners of one hand-off are still
+// running, another goroutine sends and the transport becomes ready again: the events of
+// the two hand-offs must not interleave (each flush is followed by its own drain).
+func VerifH_C18_flush_drain_pairing() {
+	w := newSockWorld(transports.WEBSOCKET, "4")
+	w.preDrain = func() { verif.Yield("drain listener") }
+	verif.Event("another goroutine sends and the transport is ready again", func() {
+		w.sock.Send(types.NewStringBufferString("b"), nil, nil)
+		w.ft.complete()
+	})
+	verif.InjectBudget(1)
+	w.sock.Send(types.NewStringBufferString("a"), nil, nil)
+	verif.InjectBudget(0)
+	w.ft.complete()
+	w.ft.complete()
+	last := ""
+	for _, e := range w.log {
+		if e.kind == "flush" || e.kind == "drain" {
+			verif.Assert(e.kind != last, "each flush event is followed by its own drain event before the next hand-off is announced")
+			last = e.kind
+		}
+	}
+	n := 0
+	for _, p := range w.ft.flat() {
+		if p.Type == packet.MESSAGE {
+			n++
+		}
+	}
+	verif.Assert(n >= 1, "the first message was handed over")
 }
